@@ -865,3 +865,102 @@ def schema_keys(P, rep, rule="SCHEMA.keys"):
                               witness="a file that omits an optional %s entry" % cls)
     rep.ok(rule, "%d schema components read, all among the %d written" % (len(read), len(written)))
     rep.floor(rule, len(read), 5, "schema components read by Parameters")
+
+
+def schema_writers(P, rep, rule="SCHEMA.writers"):
+    """shape of the type writers that the unchecked readers rely on"""
+    rep.rule(rule, "in every Types::*::write_schema no schema path is set twice in the same statement list (the second store would replace the "
+                   "first: a keyword is missing), and the fixed-size point type declares minItems = maxItems = dim, which is what allows the "
+                   "readers to index coordinates 0..dim-1 without a size check")
+    n = 0
+    for F in sorted(P.funcs.values(), key=lambda f: f.key):
+        if F.body is None or F.name != "write_schema" or "::Types::" not in F.qn:
+            continue
+        n += 1
+        label = F.qn + ("<%s>" % F.targs if getattr(F, "targs", None) else "")
+        sets = {}       # enclosing compound id -> {suffix: node}
+        all_sets = {}
+        dup = False
+        for x in F.walk():
+            if x.get("k") == "CXXMemberCallExpr" and x["c"][0].get("n") == "Set":
+                lits = [y.get("v") for y in F.walk(x["c"][0]) if y.get("k") == "StringLiteral"]
+                if not lits:
+                    continue
+                path = norm.render(P, x["c"][0]["c"][0], nocast=True)
+                blk, child = None, x
+                for a in F.ancestors(x):
+                    if a.get("k") in ("CompoundStmt", "IfStmt", "ForStmt", "CXXForRangeStmt", "WhileStmt", "SwitchStmt"):
+                        blk = a
+                        break
+                    child = a
+                branch = [i for i, c in enumerate(blk.get("c", [])) if c is child] if blk is not None and blk.get("k") == "IfStmt" else []
+                key = (blk["i"] if blk else None, tuple(branch), path)
+                all_sets.setdefault(lits[-1], []).append(x)
+                if key in sets:
+                    dup = True
+                    rep.violation(rule, "%s sets %s twice" % (label, lits[-1]), F.nloc(x), F.qn, norm.render(P, x)[:140],
+                                  "one of the two stores was meant for another keyword, which the schema now lacks",
+                                  key="%s|%s|dup|%s" % (rule, F.qn, lits[-1]), witness="a file violating the keyword that is no longer written")
+                sets[key] = x
+        if "Types::Point<" in F.qn:
+            for kw in ("/minItems", "/maxItems"):
+                xs = all_sets.get(kw, [])
+                good = False
+                for x in xs:
+                    v = sc(x["c"][-1])
+                    vv = v
+                    while vv is not None and vv.get("k") in ("SubstNonTypeTemplateParmExpr", "ImplicitCastExpr") and vv.get("c"):
+                        vv = sc(vv["c"][0])
+                    dim = re.search(r"Point<(\d)>", F.qn)
+                    if vv is not None and ((vv.get("k") == "IntegerLiteral" and dim and int(vv.get("v")) == int(dim.group(1))) or (vv.get("k") == "DeclRefExpr" and P.d(vv["r"]).get("n") == "dim")):
+                        good = True
+                if good:
+                    rep.ok(rule, "%s: %s = dim" % (label, kw), F.loc, F.qn)
+                else:
+                    rep.violation(rule, "%s does not declare %s = dim" % (label, kw), F.loc, F.qn, "", "a point with the wrong number of entries passes validation; the "
+                                  "readers index [0..dim-1] unchecked (null JSON pointer dereference)", key="%s|%s|%s" % (rule, F.qn, kw),
+                                  witness="\"coordinates\":[[1],[2,3]] or a one-entry \"dip point\"")
+        if not dup:
+            rep.ok(rule, "%s: %d schema stores, no path set twice in one block" % (label, sum(len(v) for v in all_sets.values())), F.loc, F.qn)
+    rep.floor(rule, n, 12, "Types write_schema functions")
+
+
+def json_member_order(P, rep, rule="JSON.order"):
+    """no reader picks an object member by its position"""
+    rep.rule(rule, "library code reaches the members of a JSON object by name (Pointer paths, FindMember, operator[](name)) or visits all of "
+                   "them in a range-for; it never takes MemberBegin()/begin() of an object to pick a member by position -- the meaning of a "
+                   "file does not depend on the order in which keys are written")
+    n = 0
+    bad = 0
+    seen = set()
+    for F in sorted(P.funcs.values(), key=lambda f: f.key):
+        if F.body is None or not F.tu.startswith("lib") or "/rapidjson/" in F.file or F.qn.startswith("rapidjson::"):
+            continue
+        for x in F.walk():
+            if x.get("k") != "CXXMemberCallExpr":
+                continue
+            d = P.d(x.get("callee"))
+            qn = d.get("qn", "")
+            if not qn.startswith("rapidjson::"):
+                continue
+            nm = d.get("n")
+            if nm in ("FindMember", "HasMember", "GetObject", "MemberEnd"):
+                n += 1
+            positional = nm == "MemberBegin" or (nm in ("begin", "end") and "GenericObject" in qn)
+            if not positional:
+                continue
+            n += 1
+            # the implicit begin()/end() of `for (auto &m : v.GetObject())` visit every member: allowed
+            rf = astq.enclosing(F, x, ("CXXForRangeStmt",))
+            if rf is not None and not any(y is x for y in F.walk(rf["c"][-1])):
+                continue
+            if (F.qn, nm, F.nloc(x)) in seen:
+                continue    # another instantiation of the same template
+            seen.add((F.qn, nm, F.nloc(x)))
+            bad += 1
+            rep.violation(rule, "%s takes %s() of a JSON object" % (F.qn, nm), F.nloc(x), F.qn, norm.render(P, astq.enclosing(F, x, ("VarDecl", "BinaryOperator", "CallExpr")) or x)[:140],
+                          "a member is selected by its position: two files that differ only in key order are read differently",
+                          key="%s|%s|%s" % (rule, F.qn, nm), witness="the same file with the keys of that object permuted (\"model\" not first)")
+    if not bad:
+        rep.ok(rule, "%d rapidjson member accesses in library code, none positional" % n)
+    rep.floor(rule, n, 2, "rapidjson object-member accesses in library code")
